@@ -2,7 +2,6 @@ package main
 
 import (
 	"fmt"
-	"go/constant"
 	"go/token"
 	"go/types"
 	"sort"
@@ -698,102 +697,52 @@ func c08ModeGate(r *Run, p *Prog) {
 }
 
 // reachUnderMode: blocks reachable from entry when every branch whose condition depends only on
-// SFid.Mode and constants is resolved for Mode == m.
+// SFid.Mode and constants (possibly through pure helper predicates) is resolved for Mode == m.
 func reachUnderMode(fn *ssa.Function, m int64) map[*ssa.BasicBlock]bool {
-	var eval func(v ssa.Value) (int64, bool)
-	eval = func(v ssa.Value) (int64, bool) {
-		switch x := v.(type) {
-		case *ssa.Const:
-			if x.Value != nil && x.Value.Kind() == constant.Int {
-				i, ok := constant.Int64Val(x.Value)
-				return i, ok
-			}
-			if x.Value != nil && x.Value.Kind() == constant.Bool {
-				if constant.BoolVal(x.Value) {
-					return 1, true
-				}
-				return 0, true
-			}
-		case *ssa.UnOp:
-			if x.Op == token.MUL && isLoadOfField(x, "SFid", "Mode") {
-				return m, true
-			}
-			if x.Op == token.NOT {
-				if a, ok := eval(x.X); ok {
-					return 1 - a, true
-				}
-			}
-		case *ssa.Convert:
-			return eval(x.X)
-		case *ssa.ChangeType:
-			return eval(x.X)
-		case *ssa.BinOp:
-			a, ok1 := eval(x.X)
-			b, ok2 := eval(x.Y)
-			if !ok1 || !ok2 {
-				return 0, false
-			}
-			bo := func(c bool) (int64, bool) {
-				if c {
-					return 1, true
-				}
-				return 0, true
-			}
-			switch x.Op {
-			case token.AND:
-				return a & b, true
-			case token.OR:
-				return a | b, true
-			case token.XOR:
-				return a ^ b, true
-			case token.AND_NOT:
-				return a &^ b, true
-			case token.EQL:
-				return bo(a == b)
-			case token.NEQ:
-				return bo(a != b)
-			case token.LSS:
-				return bo(a < b)
-			case token.LEQ:
-				return bo(a <= b)
-			case token.GTR:
-				return bo(a > b)
-			case token.GEQ:
-				return bo(a >= b)
-			case token.ADD:
-				return a + b, true
-			case token.SUB:
-				return a - b, true
-			}
+	saved := *ccpCur
+	defer func() { *ccpCur = saved }()
+	*ccpCur = ccpCtx{loadHook: func(u *ssa.UnOp) (int64, bool) {
+		if isLoadOfField(u, "SFid", "Mode") {
+			return m, true
 		}
 		return 0, false
+	}}
+	if len(fn.Blocks) == 0 {
+		return nil
 	}
+	return ccpReachKeep(fn.Blocks[0])
+}
+
+// ccpReachKeep is ccpReach that keeps the caller-installed context (load hook).
+func ccpReachKeep(start *ssa.BasicBlock) map[*ssa.BasicBlock]bool {
 	seen := map[*ssa.BasicBlock]bool{}
-	var walk func(b *ssa.BasicBlock)
-	walk = func(b *ssa.BasicBlock) {
-		if seen[b] {
+	type edge struct{ b, prev *ssa.BasicBlock }
+	visited := map[edge]bool{}
+	var walk func(b, prev *ssa.BasicBlock)
+	walk = func(b, prev *ssa.BasicBlock) {
+		if visited[edge{b, prev}] {
 			return
 		}
+		visited[edge{b, prev}] = true
 		seen[b] = true
 		if len(b.Instrs) > 0 {
 			if ifi, ok := b.Instrs[len(b.Instrs)-1].(*ssa.If); ok {
-				if v, ok := eval(ifi.Cond); ok {
-					if v != 0 {
-						walk(b.Succs[0])
+				ccpCur.cur, ccpCur.prev = b, prev
+				if v, ok := ccpEval(ifi.Cond, nil, 0); ok && v.kind == "b" {
+					if v.b {
+						walk(b.Succs[0], b)
 					} else {
-						walk(b.Succs[1])
+						walk(b.Succs[1], b)
 					}
 					return
 				}
 			}
 		}
 		for _, s := range b.Succs {
-			walk(s)
+			walk(s, b)
 		}
 	}
-	if len(fn.Blocks) > 0 {
-		walk(fn.Blocks[0])
-	}
+	walk(start, nil)
 	return seen
 }
 
